@@ -152,7 +152,7 @@ pub fn generate(out: &mut Out, rng: &Prng, thorough: bool, workdir: &std::path::
             meas: super::gen_inst::MeasOracle::default(),
             ex: InstExec::new(),
             out: &mut base_sink,
-            w: World { own_clock: [0; 8], own_sdo: 0, own_domain: 0, masters: vec![], ports: vec![], parent: String::new(), now: 0, path_trace: false, slave_only: false, own_p1: 0, own_class: 0 },
+            w: World { own_clock: [0; 8], own_sdo: 0, own_domain: 0, masters: vec![], ports: vec![], parent: String::new(), now: 0, path_trace: false, slave_only: false, own_p1: 0, own_class: 0, init_line: String::new(), port_lines: vec![] },
             ops_in_scenario: 0,
             dead: false,
             on_obs: Some(Box::new(move |_sink: &mut Out, w: &World, op: &str, obs: &str| {
